@@ -80,6 +80,7 @@ class Ctx:
             # that runs with very small or very large factors are observed with the same resolution
             self.TICKS_PER_SECOND = 1024.0 / (self.rt["rt_factor"] * self.rt.get("time_resolution", 1.0))
         self.faults: List[dict] = []  # planned faults (harness/faults)
+        self.created: List[list] = []  # [sid, eid, type] of every entity the scripted simulators returned from create() (children too)
 
     TICKS_PER_SECOND = 1024
 
@@ -182,20 +183,31 @@ class AsyncProxy(BaseProxy):
     def meta(self):
         return self._meta
 
+    def _create(self, args):
+        ctx = self.ctx
+        num, model = args
+        ents = [{"eid": f"E{self.nent + i}" + (self.ctx.scn.get("eid_suffix") or ""), "type": model} for i in range(num)]
+        self.nent += num
+        if getattr(self, "swapped", False):
+            # parents P<n> of model M, each with one child E<n> of model K: the scenario's entity ids name the children
+            return [{"eid": "P" + e["eid"][1:], "type": model, "children": [{"eid": e["eid"], "type": "K"}]} for e in ents]
+        if S.sim_by_id(ctx.scn)[self.sid].get("children"):
+            for e in ents:
+                e["children"] = [{"eid": "K" + e["eid"][1:], "type": "K"}]
+        return ents
+
     async def send(self, request):
         func, args, kwargs = request
         ctx = self.ctx
         if func == "create":
-            num, model = args
-            ents = [{"eid": f"E{self.nent + i}" + (self.ctx.scn.get("eid_suffix") or ""), "type": model} for i in range(num)]
-            self.nent += num
-            if getattr(self, "swapped", False):
-                # parents P<n> of model M, each with one child E<n> of model K: the scenario's entity ids name the children
-                return [{"eid": "P" + e["eid"][1:], "type": model, "children": [{"eid": e["eid"], "type": "K"}]} for e in ents]
-            if S.sim_by_id(ctx.scn)[self.sid].get("children"):
-                for e in ents:
-                    e["children"] = [{"eid": "K" + e["eid"][1:], "type": "K"}]
-            return ents
+            res = self._create(args)
+
+            def note(es):
+                for e in es:
+                    ctx.created.append([self.sid, e["eid"], e["type"]])
+                    note(e.get("children") or [])
+            note(res)
+            return res
         if func == "setup_done":
             ctx.record({"k": "SETUP", "s": self.sid})
             plan = getattr(ctx.behaviour, "plan", None)
@@ -228,6 +240,9 @@ class AsyncProxy(BaseProxy):
             rep: Reply = await fut
             for call in rep.calls:
                 await self._callback(call)
+            if func == "step" and ctx.scn.get("info_requests") and rep.exc is None:
+                for call in _info_calls(ctx, self.sid, ctx.nstep.get(self.sid, 0)):
+                    await self._callback(call)
             if rep.exc is not None:
                 ctx.record({"k": "FAULT", "s": self.sid, "kind": "raise", "req": func})
                 raise rep.exc
@@ -254,21 +269,91 @@ class AsyncProxy(BaseProxy):
             if name == "set_event":
                 ctx.in_set_event = arg  # (a warning logged while this call is processed belongs to it, whatever its wording)
             try:
-                r = await getattr(self.remote, name)(arg)
+                if name == "get_progress":
+                    r = await self.remote.get_progress()
+                elif name == "get_related_entities":
+                    r = await (self.remote.get_related_entities() if arg is None else self.remote.get_related_entities(arg))
+                else:
+                    r = await getattr(self.remote, name)(arg)
             finally:
                 ctx.in_set_event = None
             if name == "get_data":
                 ev["val"] = _enc_cb("get_data_result", r)
+            elif name == "get_progress":
+                ev["arg"] = _enc_progress(ctx, r)
+            elif name == "get_related_entities":
+                ev.update(_enc_related(ctx, arg, r))
         except ScenarioError:
             ev["res"] = "ScenarioError"
         except SimulationError:
             ev["res"] = "SimulationError"
         except BaseException as e:  # noqa: BLE001
             ev["res"] = type(e).__name__
+        if name == "get_progress" and ev["res"] != "ok":
+            ev["arg"] = -2
+        if name == "get_related_entities" and ev["res"] != "ok":
+            ev.update(_enc_related(ctx, arg, None))
         ctx.record(ev)
 
     async def stop(self):
         self.ctx.record({"k": "STOP", "s": self.sid})
+
+
+def _info_calls(ctx, sid, k):
+    """Information requests (get_progress / get_related_entities in its three argument shapes) that a scripted simulator issues
+    during step k: decided by a hash of (scenario seed, simulator, step), so that they do not depend on the schedule."""
+    import hashlib
+
+    hsh = int(hashlib.sha256(f"info|{ctx.scn.get('info_requests')}|{sid}|{k}".encode()).hexdigest()[:8], 16)
+    calls = []
+    if hsh % 3 != 0:
+        calls.append(("get_progress", None))
+    ents = [f"{c[0]}.{c[1]}" for c in ctx.created]
+    kind = (hsh // 3) % 6
+    if kind == 0:
+        calls.append(("get_related_entities", None))
+    elif kind == 1 and ents:
+        calls.append(("get_related_entities", ents[(hsh // 18) % len(ents)]))
+    elif kind == 2 and ents:
+        n = 1 + (hsh // 18) % min(3, len(ents))
+        calls.append(("get_related_entities", [ents[((hsh // 54) + 7 * i) % len(ents)] for i in range(n)]))
+    return calls
+
+
+def _enc_progress(ctx, r):
+    """get_progress answers a percentage: the mean of the simulators' progress times over `until`.  The trace carries the SUM of the
+    progress times it stands for (a whole number), -1 if it stands for none."""
+    n, until = len(ctx.scn["sims"]), ctx.scn["until"]
+    if isinstance(r, bool) or not isinstance(r, (int, float)) or r != r:
+        return -1
+    x = r * n * until / 100.0
+    return int(round(x)) if abs(x - round(x)) < 1e-6 and 0 <= x < 10**8 else -1
+
+
+def _enc_related(ctx, arg, r):
+    def split(full):
+        for c in ctx.created:  # (entity and simulator ids may contain dots: resolve a full id by the entities that exist)
+            if f"{c[0]}.{c[1]}" == full:
+                return [c[0], c[1]]
+        sid, _, eid = str(full).partition(".")
+        return [sid, eid]
+
+    out = {"shape": "all" if arg is None else "one" if isinstance(arg, str) else "many", "created": [list(c) for c in ctx.created],
+           "q": [] if arg is None else [split(arg)] if isinstance(arg, str) else [split(a) for a in dict.fromkeys(arg)], "nodes": [], "edges": [], "rel": []}
+    if r is None:
+        return out
+    try:
+        if arg is None:
+            out["nodes"] = sorted(split(n) + [str(d.get("type"))] for n, d in r["nodes"].items())
+            out["edges"] = sorted([split(e[0]), split(e[1])] for e in r["edges"])
+        elif isinstance(arg, str):
+            out["rel"] = sorted([split(arg), split(n), str(d.get("type"))] for n, d in r.items())
+        else:
+            out["rel"] = sorted([split(q), split(n), str(d.get("type"))] for q, rel in r.items() for n, d in rel.items())
+    except Exception as e:  # noqa: BLE001  (an answer of another shape)
+        out["res_shape"] = f"{type(e).__name__}"
+        out["nodes"], out["edges"], out["rel"] = [["?", "?", "?"]], [], [[["?", "?"], ["?", "?"], "?"]]
+    return out
 
 
 def _enc_time(t):
